@@ -14,7 +14,19 @@ MISSING = "<missing>"
 TAGV = [MISSING, None, "", "x", "X", "xy"]
 FLDV = [MISSING, None, 0, -1, 1, 2.5]
 MEASV = ["m1", "", "M1"]
-TIMEV = [T0, T0 + timedelta(microseconds=1), T0 - timedelta(days=20000)]
+from datetime import datetime as _dt
+
+def _far():
+    """An instant in the year 2600 whose float timestamp is the same as that of the next microsecond (floats resolve ~4 us there)."""
+    for u in range(0, 64):
+        a = _dt(2600, 1, 1, 0, 0, 0, u, tzinfo=timezone.utc)
+        if a.timestamp() == (a + timedelta(microseconds=1)).timestamp():
+            return a
+    return _dt(2600, 1, 1, 0, 0, 0, 1, tzinfo=timezone.utc)
+
+
+FAR = _far()  # far outside the range in which float timestamps still resolve microseconds
+TIMEV = [T0, T0 + timedelta(microseconds=1), T0 - timedelta(days=20000), FAR, FAR + timedelta(microseconds=1)]
 SLOTS = {"time": TIMEV, "meas": MEASV, "tag.a": TAGV, "tag.b": TAGV, "field.a": FLDV, "field.f": FLDV}
 DEFAULT = {"time": T0, "meas": "m1", "tag.a": "x", "tag.b": MISSING, "field.a": 1, "field.f": MISSING}
 NPT = timezone(timedelta(hours=5, minutes=45))
@@ -64,6 +76,8 @@ def vocabulary():
     out.append((L("time", [], ["test", "year_even", []]), "time"))
     out.append((L("time", [M("year")], ["test", "in", [2020]]), "time"))
     out.append((L("time", [M("ident")], ["cmp", ">=", T0]), "time"))
+    for op in ("==", "<", ">="):
+        out.append((L("time", [], ["cmp", op, FAR + timedelta(microseconds=1)]), "time"))
     out.append((L("time", [], ["noop"]), None))
     # measurement
     for rhs in ("m1", "", "M1"):
@@ -117,6 +131,11 @@ def vocabulary():
     out.append((L("field", [K("a")], ["noop"]), None))
     for t in (["cmp", "==", 1], ["cmp", "!=", 1], ["cmp", ">", 0], ["exists"]):
         out.append((L("field", [K("f")], t), "field.f"))
+    # keys that happen to be names of query-builder attributes and methods (item syntax must treat them as plain keys)
+    for key in ("test", "map", "noop", "exists", "_hash", "_path", "search"):
+        out.append((L("tag", [K(key)], ["cmp", "==", "x"]), None))
+        out.append((L("field", [K(key)], ["exists"]), None))
+    out.append((L("tag", [K("matches")], ["cmp", "!=", "x"]), None))
     # a function as the first path element sees the whole tag / field mapping (accepted by the DSL)
     out.append((L("field", [M("len")], ["cmp", "==", 0]), ("field.a", "field.f")))
     out.append((L("field", [M("len")], ["cmp", ">=", 1]), ("field.a", "field.f")))
